@@ -17,7 +17,7 @@ RULE = ("seeded topologies (1-3 molecule types in any order and count, 1-5-atom 
         "coordinate must be finite (also watched at NonBondEngine.add_positions), and the box line must be the "
         "input-structure box / the requested box / the cube with V = M*1.660541/density. non-trivial = accepted run "
         "with >= 2 molecules or >= 4 residues; distinct = hash(topology text, options)"
-        ' Later strata: PDB inputs with TER records, per-atom masses in [ atoms ] lines, two residue definitions under one name, rings declared cyclic that carry ligands.')
+        ' Later strata: PDB inputs with TER records, per-atom masses in [ atoms ] lines, two residue definitions under one name, rings declared cyclic that carry ligands, a density given together with a requested box or an input structure (the box stays).')
 ASSUMPTIONS = ["names <= 5 characters and < 99999 atoms so the fixed-width .gro columns are lossless",
                "box edge from density compared within 1.5e-5 nm (the program rounds the edge to 5 decimals)",
                "IOError/OSError = the program rejecting an input (counted); any other exception type is reported"]
@@ -179,10 +179,18 @@ def make_options(rng, sysd, workdir, res, allow=("plain", "c_full", "c_prefix", 
         # a conflicting -box is ignored in favour of the structure's box
         if rng.random() < 0.3:
             kw["box"] = box + 0.5
+        # ... and so is a density: the molecules are packed into the box of the structure
+        if rng.random() < 0.3:
+            kw["density"] = round(rng.uniform(50, 300), 3)
+            info["density_with_box"] = True
     else:
         kw["box"] = box
         info["box_src"] = "option"
         info["box"] = box.tolist()
+        # a density given together with -box: the requested box is the one that is carried
+        if rng.random() < 0.3:
+            kw["density"] = round(rng.uniform(50, 300), 3)
+            info["density_with_box"] = True
     if mode == "grid":
         pts = np.array([[rng.uniform(0, box[k]) for k in range(3)] for _ in range(rng.randint(60, 200))])
         np.savetxt(os.path.join(workdir, "grid.dat"), pts)
@@ -225,6 +233,8 @@ def check_output(res, sysd, info, kw, outp, key_suffix=""):
             break
     # box
     box = gro["box"]
+    if info.get("density_with_box"):
+        bump(res, "density_given_together_with_a_box")
     if info["box_src"] == "density":
         bump(res, "box_from_density")
         edge = (T.total_mass(sysd) * 1.6605410 / kw["density"]) ** (1 / 3.0)
